@@ -1,6 +1,6 @@
 (* C07 Admission: only fully funded, well-formed orders enter the book. *)
 From ATS Require Import Prelude Dec DecFacts Uuid Semver Types Contract Tactics Spec Inv InvAsk InstProofs AskProofs
-  BidFacts InvBid InvStep ExitProofs Ledger AdmitProofs.
+  BidFacts InvBid InvStep ExitProofs Ledger AdmitProofs MatchLive AdmitLive.
 
 (* asks, both directions, every state and environment: a create-ask request is accepted IF AND ONLY IF the id is a
    canonical hyphenated UUID, base/quote/price are non-empty, size >= 1, the base is the contract's base or a
@@ -57,6 +57,27 @@ Proof.
 Qed.
 Print Assumptions C07_escrow_equals_obligation.
 
-(* The converse for bids (every request meeting the conditions is accepted) is not proved here; the correspondence
-   run compares acceptance of every generated create-bid request (see DESIGN.md, "partial").  Known class K_capacity:
-   amounts >= 2^96 abort although admissible. *)
+(* CONVERSELY for bids: every create-bid request meeting the conditions is accepted and recorded as requested
+   (amounts below 2^96: outside the known class K_capacity; "the fee at the configured rate is computable and is the
+   one sent" is the hypothesis on rate_fee) *)
+Theorem C07_bid_if : forall e st c sender funds id fee price quote qsize size p rate,
+  st_cfg st = Some c -> cfg_ok c ->
+  uuid_canonical id = true -> quote <> "" -> price <> "" -> 1 <= qsize -> 1 <= size ->
+  valid_price price (cf_precision c) = Ok p ->
+  size mod cf_increment c = 0 ->
+  size < B96 -> qsize < B96 ->
+  qsize * 10 ^ d_scale p = d_mant p * size ->
+  bid_rate c = Some rate ->
+  (forall total, mul_size p size = Ok total ->
+     exists calc, rate_fee rate total = Ok calc /\
+       match fee with Some f => c_amt f = calc /\ c_denom f = quote | None => calc = 0 end) ->
+  In quote (cf_quotes c) -> has_attrs e (cf_bid_attrs c) sender = true ->
+  qsize + fee_amt fee <= U128MAX ->
+  funds_rule e funds (qsize + fee_amt fee) quote ->
+  lookup id (st_bids st) = None ->
+  execute FX e st sender funds (CreateBid id (cf_base c) fee price quote qsize size) =
+  Ok (set_bids st (insert id (SlotV3 (new_bid sender id (cf_base c) fee price quote qsize size)) (st_bids st)),
+      mkresp (pull_msgs e (qsize + fee_amt fee) quote sender)
+             (create_bid_attrs (new_bid sender id (cf_base c) fee price quote qsize size))).
+Proof. exact create_bid_if. Qed.
+Print Assumptions C07_bid_if.
